@@ -3,6 +3,7 @@ HOOKS = {
     'enable': "RUSTFLAGS='--cfg vsb_verif' (set by bin/build-harness for the harness and the vsb binary)",
     'baseline_off_cmd': 'cd /repo && cargo test --workspace --no-fail-fast --offline',
     'source_commits': ['26876a3'],
+    'fix_commits': ['d48cffe', '80441a9'],
     'add_only': True,
 }
 NOTES = ('Every claimed property: Lean 4 theorems about a hand-written executable model (lean/VsbModel), '
@@ -54,5 +55,9 @@ CLAIMED = {
     'C19': {
         'text': 'Lean theorems: hooks_bracket (the trace of every run is a sequence of brackets before-events ++ hook-free body ++ after-events, one per reached item in configuration order; an aborting item still gets its after hook and later items contribute nothing), noHook_itemBody, hook_once, hook_failure_reported. Tied to the code by runs whose before hook creates a file inside its item and whose after hook removes one, so the archive itself shows that the item was read strictly between them, over hook/item combinations incl. failing hooks, missing/overlapping/unreadable items.',
         'note': TRUST + 'hooks run through bash -c; a hook that cannot be started is represented by a failing one.',
+    },
+    'C20': {
+        'text': 'Lean theorems: normalize_canonical / normalize_equiv / rejects_relative / rejects_dotdot (accepted paths are / plus the /-joined non-trivial components; spellings with the same components normalise identically; relative paths and .. are rejected), fieldsOf_ok (a mapping is taken apart only if every key is known and none repeats), validate_valid, finalizeSpecs_ok and load_sound (whatever Config::load accepts passes every validator rule, has distinct backup names and normalised storage/upload/metrics paths), load_before_act / effects_only_if_accepted (main.rs performs no effect of any action unless the configuration was accepted). Tied to config.rs, backuping/config.rs, uploading/config.rs by running the real Config::load on every single-fault mutation of valid documents (delete/duplicate/unknown key at every mapping, retype/empty/zero/negative/huge scalars, perturbed paths/durations/filters, duplicate names) against the schema model and an independent well-formedness oracle, path spellings, and the CLI (backup/upload/restore) on rejected documents under the interposer. Found and fixed F4 (d48cffe) and F5 (80441a9).',
+        'note': TRUST + 'YAML surface syntax is serde_yaml\'s (documents fed in JSON flow syntax; plain-scalar-to-string coercion modelled); HOME is the expansion of ~.',
     },
 }
